@@ -1126,11 +1126,3 @@ Lemma C16_fm_sound_pf (R : realFieldType) sgnM ord p1 c1 p2 c2 R0 cR0 A0 :
     cond_sem c1 (mp_evalR rho p1) -> cond_sem c2 (mp_evalR rho p2) ->
     cond_sem (fm_cond r) (mp_evalR rho (fm_R r)).
 Proof. by move=> /mp_wf_mwf H1 /mp_wf_mwf H2; apply: resolve_fm_sound. Qed.
-
-Lemma C16_fm_xindep_pf (R : realFieldType) sgnM ord p1 c1 p2 c2 R0 cR0 A0 x :
-  mp_wf p1 = true -> mp_wf p2 = true ->
-  let r := resolve_fm sgnM ord p1 c1 p2 c2 R0 cR0 A0 in
-  fm_ok r = true -> bd_top_var ord p1 = Some x ->
-  (exists rho0 : var -> R, assum_ok sgnM rho0 (fm_assum r)) ->
-  forall (rho : var -> R) v, mp_evalR (upd rho x v) (fm_R r) = mp_evalR rho (fm_R r).
-Proof. by move=> /mp_wf_mwf H1 /mp_wf_mwf H2; apply: resolve_fm_xindep. Qed.
